@@ -51,9 +51,12 @@ class Project:
                 ws = mk_workspace(self.base, 'w%d' % self.n, content)
                 h = hashDirectory(ws)
                 path, installed = self.share.installSharedPackage(ws, bid, h, False)
-                if installed:     # builder replaces the workspace by a link to the shared location
+                # builder._installSharedPackage replaces the workspace by a link to the shared location, whether this call
+                # installed the package or found it installed by somebody else; the link is made after the share API returned
+                if getattr(self, 'window', None): self.window()
+                if path is not None and os.path.isdir(os.path.join(path, 'workspace')):
                     shutil.rmtree(ws); os.symlink(os.path.join(path, 'workspace'), ws)
-                return ('ok', ('install', path, installed))
+                return ('ok', ('install', path, installed, ws))
             if kind == 'use':
                 self.n += 1
                 ws = os.path.join(self.base, 'u%d' % self.n, 'workspace'); os.makedirs(os.path.dirname(ws))
@@ -122,7 +125,11 @@ def interleave(opA, opB, k, quota):
                 return {'kind': 'collected-while-in-use/' + str(where), 'detail': 'useSharedPackage handed out %s but gc removed it' % os.path.relpath(r[1], share_dir),
                         'A': opA[0], 'B': opB[0], 'B_started_at_step_of_A': k, 'B_started_in': label[0]}, count[0]
             if r[0] == 'install' and r[1] is not None and not forced and any(o[0].startswith('gc') for o in (opA, opB)) is False and not os.path.isdir(r[1]):
-                return {'kind': 'installed-package-missing', 'A': opA[:2], 'B': opB[:2], 'at_step': k}, count[0]
+                # with a quota every install of the other project runs an automatic gc: a package whose workspace link does not
+                # exist yet (the builder links after the share API returned) counts as unused there -> install-side variant of
+                # the known window.  Without quota nobody collects anything: a missing package would be a different defect.
+                kind = 'collected-while-in-use/install-window' if quota is not None else 'installed-package-missing'
+                return {'kind': kind, 'A': opA[:2], 'B': opB[:2], 'at_step': k}, count[0]
         c = store_consistent(share_dir)
         if c is not None: return {'kind': 'store-inconsistent', 'detail': c, 'A': opA[:2], 'B': opB[:2], 'B_started_at_step_of_A': k}, count[0]
         return None, count[0]
@@ -146,6 +153,27 @@ def sequential(quota, rnd):
     finally:
         shutil.rmtree(base, ignore_errors=True)
 
+
+def unregistered_user():
+    """a project that finds the package already installed links to it: it must be recorded as a user, otherwise a later
+    gc --all-unused of anybody removes the package under its feet"""
+    base = tempfile.mkdtemp(prefix='c15u-'); share_dir = os.path.join(base, 'share'); os.makedirs(share_dir)
+    try:
+        p1 = Project(base, 'p1', share_dir, None); p2 = Project(base, 'p2', share_dir, None)
+        bid = bytes([5]) * 20
+        r1 = p1.op('install', bid, 'same'); r2 = p2.op('install', bid, 'same')
+        if r1[0] != 'ok' or r2[0] != 'ok': return None
+        path = r2[1][1]; ws2 = r2[1][3]
+        if not os.path.islink(ws2): return None
+        shutil.rmtree(p1.base, ignore_errors=True)            # project 1 goes away
+        g = p2.op('gc-unused', bid)
+        if not os.path.isdir(os.path.join(path, 'workspace')):
+            return {'kind': 'collected-while-in-use/never-registered', 'detail': 'project 2 found the package installed and linked its workspace to it; after project 1 went away gc --all-unused removed the package although the workspace of project 2 still links to it',
+                    'history': ['p1 install', 'p2 install (already installed)', 'p1 removed', 'p2 gc-unused']}
+        return None
+    finally:
+        shutil.rmtree(base, ignore_errors=True)
+
 def replay(rep):
     seed = int(os.environ.get('VERIF_SEED', '0') or 0); rnd = random.Random(seed)
     budget = float(os.environ.get('VERIF_BOUNDED_BUDGET', '25')); t0 = time.time(); tried = 0
@@ -155,6 +183,8 @@ def replay(rep):
             tried += 1
             w = sequential(quota, rnd)
             if w is not None: return {'reproduced': True, 'tried': tried, 'witness': w}
+    w = unregistered_user(); tried += 1
+    if w is not None: return {'reproduced': True, 'tried': tried, 'witness': w}
     bid = bytes([7]) * 20; bid2 = bytes([9]) * 20
     ops = [('install', bid, 'x'), ('gc-unused', bid), ('use', bid2), ('gc-auto', bid)]
     if os.environ.get('VERIF_TIER') == 'thorough': ops += [('use', bid), ('install', bid2, 'other'), ('gc-all', bid)]
@@ -169,7 +199,7 @@ def replay(rep):
                     w, steps = interleave(A, B, k, quota)
                     if k <= steps: distinct.add((A[0], A[1], B[0], B[1], k, quota))     # B really ran inside A
                     if len(samples) < 3 and k <= steps: samples.append({'A': A[0], 'B': B[0], 'B_started_at_step_of_A': k, 'quota': quota})
-                    if w is not None and w['kind'] == 'collected-while-in-use/builder-window':
+                    if w is not None and w['kind'] in ('collected-while-in-use/builder-window', 'collected-while-in-use/install-window'):
                         known.setdefault(w['kind'], w); w = None       # listed separately (known finding F-C15c); keep searching
                     if w is not None: return {'reproduced': True, 'tried': tried, 'witness': w, 'also': list(known.values())}
                     if k > steps or k > 40: break      # B was not started any more: A has fewer than k steps
